@@ -536,6 +536,9 @@ func wrGenFiles(rng *Rng, arch byte, nfiles int, defaultHdr bool, small bool, v1
 		if !small && rng.Intn(6) == 0 {
 			nm = 1 + rng.Intn(40)
 		}
+		if rng.Intn(25) == 0 { // no message at all: Encode refuses; SequenceCompleted alone writes a bare CRC
+			nm = 0
+		}
 		ts := uint32(0x10000000 + rng.Intn(1<<28))
 		for k := 0; k < nm; k++ {
 			s := shapes[rng.Intn(len(shapes))]
